@@ -36,7 +36,23 @@ impl TypeInference {
 
     pub fn type_from_annotation(&mut self, ann: &TypeAnnotation) -> InferType {
         self.check_type_annotation(ann);
-        InferType::from_annotation(ann)
+        self.resolve_annotation(ann)
+    }
+
+    /// `InferType::from_annotation`, except that a type parameter in scope wins over
+    /// everything else, a builtin type of the same (case-insensitive) spelling included.
+    fn resolve_annotation(&self, ann: &TypeAnnotation) -> InferType {
+        if self.type_params_in_scope.is_empty() || ann.is_function_type() {
+            return InferType::from_annotation(ann);
+        }
+        if self.type_params_in_scope.iter().any(|tp| tp == &ann.name) {
+            return InferType::Struct(ann.name.clone());
+        }
+        match (ann.name.to_lowercase().as_str(), ann.type_param.as_ref()) {
+            ("array", Some(inner)) => InferType::Array(Box::new(self.resolve_annotation(inner))),
+            ("vec", Some(inner)) => InferType::Vec(Box::new(self.resolve_annotation(inner))),
+            _ => InferType::from_annotation(ann),
+        }
     }
 
     fn check_type_annotation(&mut self, ann: &TypeAnnotation) {
